@@ -413,6 +413,36 @@ func (g *gctx) genPar(curT bool, curKeys []int, depth int, single bool) stageOut
 	return stageOut{&Prog{Op: "par", Kids: kids}, keys, false, deferred}
 }
 
+// genWrongPar: a fan-out whose kids fan in again; one kid is declared with an any-typed output and
+// returns a string where the fan-in node takes a map (a run-time type error on its edge, in every
+// paradigm); it does not stream (its stream in stream mode is array-backed).
+func (g *gctx) genWrongPar(curT bool, curKeys []int) stageOut {
+	g.injected = true
+	var outs []stageOut
+	for i, n := 0, g.r.Range(1, 2); i < n; i++ {
+		outs = append(outs, g.genNode(curT, curKeys, true))
+	}
+	g.disjointKids(outs, curT, curKeys)
+	g.budget--
+	wrong := g.nspec(kindOf(curT, false))
+	wrong.AnyOut, wrong.AnyMap = true, true
+	wrong.Nat = [4]bool{g.r.Chance(1, 2), true, g.r.Chance(1, 3), false}
+	if g.r.Chance(1, 2) {
+		wrong.Nat = [4]bool{true, false, g.r.Chance(1, 3), false}
+	}
+	wrong.Pipe, wrong.Spare = 0, g.r.Intn(3)
+	kids := []*Prog{{Op: "node", N: wrong}}
+	var keys []int
+	for _, k := range outs {
+		kids = append(kids, k.p)
+		keys = append(keys, k.keys...)
+	}
+	if j := g.r.Intn(len(kids)); j > 0 {
+		kids[0], kids[j] = kids[j], kids[0]
+	}
+	return stageOut{&Prog{Op: "par", Kids: kids}, keys, false, false}
+}
+
 // arrayProfile makes the node's output stream in stream mode array-backed (no Transform
 // native, so the Stream native - or a boxed value - is what the run gets; no pipe) over a
 // slice with spare capacity, three times out of four
@@ -463,6 +493,34 @@ func (g *gctx) genShared(curT bool, curKeys []int) stageOut {
 	_ = aKeys
 	p := &Prog{Op: "seq", Kids: []*Prog{{Op: "node", N: a}, {Op: "par", Kids: kids}}}
 	return stageOut{p, keys, false, false}
+}
+
+// genTypedFan: a fan-out to two or three producers declared with map[string]string (no output
+// keys: their maps, with keys of their own, are merged as they are) and the consumer of the
+// merged map, declared with map[string]string as well: the fan-in of a map type other than
+// map[string]any, for values (mergeMap) and for streams (merge).
+func (g *gctx) genTypedFan(curT bool, curKeys []int, wantT bool) stageOut {
+	n := g.r.Range(2, 3)
+	named := g.r.Chance(1, 2) // the named type NMap (underlying map[string]any) instead of map[string]string
+	var kids []*Prog
+	for i := 0; i < n; i++ {
+		g.budget--
+		sp := g.nspec(kindOf(curT, true))
+		sp.TOut, sp.NOut = !named, named
+		if g.r.Chance(1, 2) {
+			g.arrayProfile(sp)
+		}
+		kids = append(kids, &Prog{Op: "node", N: sp})
+	}
+	g.budget--
+	m := g.nspec(kindOf(true, wantT))
+	m.TIn, m.NIn = !named, named
+	var keys []int
+	if wantT {
+		keys = []int{m.K1}
+	}
+	p := &Prog{Op: "seq", Kids: []*Prog{{Op: "par", Kids: kids}, {Op: "node", N: m}}}
+	return stageOut{p, keys, true, false}
 }
 
 // genMulti: a multi-branch; every alternative produces a map with its own keys, the selected
@@ -557,6 +615,8 @@ func (g *gctx) genSeq(tin bool, keys []int, tout bool, depth int, nStages int, a
 			isLoop = true
 		case depth == 0 && g.budget >= 5 && g.inject == "" && wantT && !afterLoop && !(first && altStart) && g.r.Chance(1, 8):
 			st = g.genShared(curT, curKeys)
+		case roll < 2 && deep && !(first && altStart) && !afterLoop && g.inject == "" && g.budget >= 4 && g.r.Chance(1, 4):
+			st = g.genTypedFan(curT, curKeys, wantT)
 		case roll < 2 && deep && wantT && !(first && altStart) && !afterLoop && single && g.inject == "" && g.r.Chance(1, 3):
 			st = g.genMulti(curT, curKeys, depth)
 		case roll < 2 && deep && wantT && !(first && altStart) && !afterLoop:
@@ -752,6 +812,8 @@ func (engine) Generate(r *lib.Rng, tier string, i int) any {
 			sp.AnyOut, sp.AnyMap = true, sp.outMap()
 		} else if sp.outMap() && r.Chance(1, 3) {
 			sp.TOut = true // declared with map[string]string
+		} else if sp.outMap() && r.Chance(1, 4) {
+			sp.NOut = true // declared with the named type NMap
 		}
 		if sp.Kind == 3 && r.Chance(1, 3) {
 			sp.Kind, sp.TOut = 4, false
@@ -759,6 +821,8 @@ func (engine) Generate(r *lib.Rng, tier string, i int) any {
 		if sp.inMap() && r.Chance(1, 3) {
 			sp.TIn = true
 			g.inject = "flat" // a map[string]string input has string values only
+		} else if sp.inMap() && r.Chance(1, 4) {
+			sp.NIn = true
 		}
 		chunks, _ := g.genInput(sp.inMap())
 		return &Case{Kind: "pack", Spec: sp, Chunks: chunks}
@@ -800,7 +864,7 @@ func (engine) Generate(r *lib.Rng, tier string, i int) any {
 		g.inject = "dupkey"
 	case 1:
 		g.inject = "nokey"
-	case 2:
+	case 2, 3:
 		g.inject = "wrongtype"
 	}
 	tin, tout := r.Chance(2, 5), r.Chance(2, 5)
@@ -819,6 +883,14 @@ func (engine) Generate(r *lib.Rng, tier string, i int) any {
 			stages = append(stages, tail.p)
 		}
 		st = stageOut{p: &Prog{Op: "seq", Kids: stages}}
+	} else if g.inject == "wrongtype" && r.Chance(1, 2) {
+		// the dynamic type error sits on an edge INTO A FAN-IN: [stage] ; par{wrong, kids} ; node.
+		// In stream mode the failing conversion is one source of a merge (over an array-backed
+		// reader: the producer does not stream).
+		head := g.genSeq(tin, keys, r.Chance(1, 2), 1, 1, false, true)
+		par := g.genWrongPar(head.p.outMap(), head.keys)
+		tail := g.genNode(true, par.keys, tout)
+		st = stageOut{p: &Prog{Op: "seq", Kids: []*Prog{head.p, par.p, tail.p}}}
 	} else {
 		g.loops = g.inject == "" && r.Chance(1, 2)
 		st = g.genSeq(tin, keys, tout, 0, r.Range(1, 4), false, true)
@@ -896,6 +968,49 @@ func (g *gctx) outMapFor(rawT bool, allKeys []int, nextT bool, forceTo bool) (*F
 			return g.key()
 		}
 		return from[g.r.Intn(len(from))]
+	}
+	// mappings with nested paths (FromFieldPath / ToFieldPath / MapFieldPaths), one per edge
+	if g.inject == "" && g.nestOK() && g.r.Chance(1, 4) {
+		var deep []int // fields that hold a map (of either Go type) with a known string field
+		for _, k := range allKeys {
+			if sh := g.kmap[k]; sh != nil && len(sh.keys) > 0 {
+				deep = append(deep, k)
+			}
+		}
+		toPath := func() []int {
+			if g.r.Chance(1, 2) {
+				return []int{g.key()}
+			}
+			return []int{g.key(), g.key()}
+		}
+		shapeTo := func(to []int, leafIsMap bool, leafKeys []int) []int {
+			// {to[0]: {to[1]: leaf}}: what is guaranteed about to[0]
+			if len(to) == 1 {
+				if leafIsMap {
+					g.setShape(to[0], false, leafKeys)
+				}
+			} else if leafIsMap {
+				g.setShape(to[0], false, nil)
+			} else {
+				g.setShape(to[0], false, []int{to[1]})
+			}
+			return []int{to[0]}
+		}
+		switch {
+		case rawT && len(deep) > 0 && !nextT:
+			k := deep[g.r.Intn(len(deep))]
+			in := g.kmap[k].keys
+			return &FMap{Path: &FPath{From: []int{k, in[g.r.Intn(len(in))]}}}, false, nil
+		case rawT && len(deep) > 0 && nextT:
+			k := deep[g.r.Intn(len(deep))]
+			in := g.kmap[k].keys
+			to := toPath()
+			return &FMap{Path: &FPath{From: []int{k, in[g.r.Intn(len(in))]}, To: to}}, true, shapeTo(to, false, nil)
+		case nextT && g.r.Chance(1, 2):
+			// the whole output under a path of two fields
+			to := []int{g.key(), g.key()}
+			return &FMap{Path: &FPath{To: to}}, true, shapeTo(to, rawT, nil)
+		}
 	}
 	switch {
 	case !rawT && nextT:
@@ -979,7 +1094,7 @@ func (g *gctx) wfLeaf(curT bool, curKeys []int, nextT *bool, forceTo bool, depth
 	}
 	f, t, keys := g.outMapFor(rawT, st.keys, want, forceTo)
 	st.p.OutMap = f
-	if f != nil && st.p.N != nil && (f.Take != nil || f.To[0].From != nil) {
+	if f != nil && st.p.N != nil && (f.Path != nil && len(f.Path.From) > 0 || f.Path == nil && (f.Take != nil || f.To[0].From != nil)) {
 		// Workflow.Compile rejects a mapping that reads fields of an interface-typed output
 		// ("predecessor output type should be struct or map"); ToField takes the whole any value
 		st.p.N.AnyOut = false
